@@ -53,8 +53,11 @@ def gen_cases(tier, seed):
 def _system(case, rng, dt, K):
     seed_t = case["s"]
     norb = case["norb"]
-    ham = trials.rand_ham(np.random.default_rng(seed_t + 11), norb, case["nchol"],
-                          spin_dep=(case["wt"] == "uhf" and case["kind"] in trials.SPIN_DEP_H1), chol_scale=0.6)
+    # unrestricted walkers: spin-dependent h1 for the spin-unrestricted kinds; restricted walkers: the propagator is defined with the spin
+    # average of the one-body matrices (the measurements entering the step - overlap, force bias - do not involve h1), so half of the
+    # restricted cases get spin-dependent h1 too and are judged against H built from the average
+    sd = (case["wt"] == "uhf" and case["kind"] in trials.SPIN_DEP_H1) or (case["wt"] == "rhf" and seed_t % 2 == 0)
+    ham = trials.rand_ham(np.random.default_rng(seed_t + 11), norb, case["nchol"], spin_dep=sd, chol_scale=0.6)
     S = afqmc.make_system(case["kind"], norb, tuple(case["nelec"]), np.random.default_rng(seed_t), walker_type=case["wt"], dt=dt, n_walkers=K,
                           nchol=case["nchol"], ham=ham, rdm1=case.get("rdm1", "trial") if case.get("rdm1") != "random" else "random",
                           ene0=float(np.random.default_rng(seed_t + 13).choice([0.0, -2.0, 1.5])),   # must be irrelevant for the phaseless step
